@@ -28,6 +28,10 @@ claim("C12", "static analysis: sibling agreement by atom-wise comparison of path
       "Decides that overflow of either call-stack implementation and of the registry is detected by a guard that raises an ordinary Lua error before the faulting store, that raiseError cannot recurse on a full registry, that the context-aware loop is the plain loop plus a poll, and that Options reach the constructors unchanged. It does not decide equality of behaviour below the limits.",
       BASE + "Go bounds checks: an element store at i fails exactly when i >= len.", "DESIGN.md §3 C12")
 
+claim("C07", "static analysis: range-guard dominance with linear-form matching over SSA path conditions (narrowing conversions, RK/Bx/sBx operand widths, label-id ceiling), constant-under-guard detection for raw code words, writer/reader agreement on multi-word groups (VM trailing-word reads vs patchCode's scan), lock-step ownership of code/line tables, must-pass-through of the final OP_RETURN",
+      "Decides that every value the compiler writes into a fixed-width operand or prototype field has passed a raising range check that fits the field, that multi-word groups are skipped by the peephole pass exactly where the VM consumes trailing words, that the code ends in a return and the line table is as long as the code. It does not decide register-operand bounds (post-hoc high-water scan), label definedness or jump-target alignment.",
+      BASE + "codeStore.LastPC() is non-decreasing while one statement is compiled.", "DESIGN.md §3 C07")
+
 for pid in ["C%02d" % i for i in range(2, 21)]:
     if pid not in P:
         na(pid, "check not built yet in this session (planned rules: DESIGN.md §3 %s); not claimed until its rules run clean" % pid)
